@@ -18,6 +18,7 @@
      {"ev":"ok_change","old":o,"id":n,"win":[a,b]}      reply to stream_change_window
      {"ev":"quiescent"}                        the file is parsed completely and the server loop has nothing more to send
      {"ev":"ok_search","id","start","max","filt","idxs":[..],"next":n|-1}   one page of stream_search
+     {"ev":"ok_search_sum","id","start","max","filt","n","first","last","asc","res":[..],"next"}   the same on a big periodic log, summarised
      {"ev":"ok_bsearch","id","key":"index"|"time","val","pos"} / {"ev":"err_bsearch",..}   stream_binary_search
      {"ev":"stopped","id"} {"ev":"end"}
      anything else (conn_closed, timeout, unexpected_reply, ...) -> no action: violation
@@ -149,6 +150,21 @@ OkSearch == /\ SearchCommon
             /\ IF Cur.next < 0 THEN Cur.idxs = SMatches(Cur.filt, Cur.start, StreamLen)
                ELSE /\ Cur.next > Cur.start /\ Cur.next <= StreamLen /\ Cur.idxs = SMatches(Cur.filt, Cur.start, Cur.next)
             /\ UNCHANGED <<case, phase, logline, nbig, sorted, cur, maxId, viol, kfUsed>>
+\* one page of a search on a big periodic log, as a summary: n positions, strictly ascending (asc), the first and the last one, the
+\* residues (position modulo L) that occur.  Only for streams in which the stream position is the message index (every residue
+\* kept).  n ascending positions inside [start, hi) whose residues all satisfy the search filters, with n = the number of such
+\* positions, are exactly the matching positions.
+CountTo(res, x) == (x \div L) * Len(res) + Cardinality({k \in 1..Len(res) : res[k] < x % L})
+OkSearchSum == /\ Ev("ok_search_sum") /\ phase = "running" /\ cur.live /\ Cur.id = cur.id /\ cur.kind = "stream" /\ nbig > 0
+               /\ Len(cur.pr) = L
+               /\ Cur.asc /\ Cur.n <= Max2(1, Cur.max) /\ Cur.start <= StreamLen
+               /\ (Cur.next >= 0 => Cur.next > Cur.start /\ Cur.next <= StreamLen)
+               /\ LET res == KeptResidues(Cur.filt)
+                      hi == IF Cur.next < 0 THEN StreamLen ELSE Cur.next IN
+                  /\ \A k \in 1..Len(Cur.res) : \E j \in 1..Len(res) : res[j] = Cur.res[k]
+                  /\ Cur.n = CountTo(res, hi) - CountTo(res, Cur.start)
+                  /\ (Cur.n > 0 => Cur.first >= Cur.start /\ Cur.last < hi)
+               /\ UNCHANGED <<case, phase, logline, nbig, sorted, cur, maxId, viol, kfUsed>>
 KfSearchSkips == /\ SearchCommon /\ KF_C16_SearchNextSkips /\ ~cur.unf
                  /\ Cur.next >= 0 /\ Len(Cur.idxs) = Cur.max /\ Cur.max >= 1 /\ Cur.next = Cur.idxs[Len(Cur.idxs)] + 2
                  /\ Cur.next <= StreamLen
@@ -185,7 +201,7 @@ Stopped == /\ Ev("stopped") /\ phase = "running" /\ cur.live /\ Cur.id = cur.id
 End == /\ Ev("end") /\ phase = "running" /\ phase' = "ended" /\ UNCHANGED <<case, logline, nbig, sorted, cur, maxId, viol, kfUsed>>
 
 Matched == \/ ENABLED OkStream \/ ENABLED BinMsgs \/ ENABLED BinSum \/ ENABLED TxtSum \/ ENABLED EndMarker \/ ENABLED Quiescent \/ ENABLED OkChange
-           \/ ENABLED OkSearch \/ ENABLED KfSearchSkips \/ ENABLED KfSearchUnfiltered
+           \/ ENABLED OkSearch \/ ENABLED OkSearchSum \/ ENABLED KfSearchSkips \/ ENABLED KfSearchUnfiltered
            \/ ENABLED OkBsearch \/ ENABLED ErrBsearch \/ ENABLED KfIndexUnfiltered \/ ENABLED Stopped \/ ENABLED End
 Reject == /\ l <= Len(Rec) /\ Cur.ev \notin {"reset", "log"} /\ phase = "running" /\ ~Matched
           /\ PrintT(<<"CASE_REJECTED", case, l, ToJson([event |-> Cur, id |-> cur.id, kind |-> cur.kind, a |-> cur.a, b |-> cur.b,
@@ -198,7 +214,7 @@ SkipRest == /\ l <= Len(Rec) /\ Cur.ev \notin {"reset", "log"} /\ phase \in {"re
             /\ UNCHANGED <<case, logline, nbig, sorted, cur, maxId, kfUsed>>
 
 \* the strict reading is tried first: a deviation action only where no contract action matches
-Strict == OkStream \/ BinMsgs \/ BinSum \/ TxtSum \/ EndMarker \/ Quiescent \/ OkChange \/ OkSearch \/ OkBsearch \/ ErrBsearch \/ Stopped \/ End
+Strict == OkStream \/ BinMsgs \/ BinSum \/ TxtSum \/ EndMarker \/ Quiescent \/ OkChange \/ OkSearch \/ OkSearchSum \/ OkBsearch \/ ErrBsearch \/ Stopped \/ End
 Next == \/ LogEv \/ Reset \/ Strict
         \/ (~ENABLED OkSearch /\ (KfSearchSkips \/ KfSearchUnfiltered))
         \/ (~ENABLED OkBsearch /\ KfIndexUnfiltered)
